@@ -495,7 +495,8 @@ func Default(d cty.Value) (schema.Expr, error) {
 		if f.IsInt() {
 			x = &schema.Literal{V: f.Text('f', -1)}
 		} else {
-			x = &schema.Literal{V: f.String()}
+			// Keep all digits (big.Float.String prints only 10).
+			x = &schema.Literal{V: f.Text('g', -1)}
 		}
 	case d.Type() == cty.Bool:
 		x = &schema.Literal{V: strconv.FormatBool(d.True())}
